@@ -32,7 +32,7 @@ struct Cfg {
     dir_name: String,
 }
 
-const DIR_NAMES: [&str; 12] = ["not/yet/there", "fresh volume/sync", "my data", "store#1", "which?", "tasks%41", "d\u{e4}ta-\u{fc}", "a'b\"c", "x;y&z", "semi:colon=eq", "file:name", "trailing."];
+const DIR_NAMES: [&str; 13] = ["<latin-1>donn\u{e9}es", "not/yet/there", "fresh volume/sync", "my data", "store#1", "which?", "tasks%41", "d\u{e4}ta-\u{fc}", "a'b\"c", "x;y&z", "semi:colon=eq", "file:name", "trailing."];
 
 impl Cfg {
     fn json(&self) -> Value {
@@ -43,27 +43,27 @@ impl Cfg {
                "snapshot_versions": self.versions, "snapshot_versions_by": if self.versions_by_env { "SNAPSHOT_VERSIONS env" } else { "--snapshot-versions" },
                "data_dir_name": self.dir_name, "occupied_address": self.occupied.map(|i| self.addrs[i].clone()), "snapshot_days": self.days, "snapshot_days_by": if self.days_by_env { "SNAPSHOT_DAYS env" } else { "--snapshot-days" }})
     }
-    fn launch(&self, dir: &std::path::Path) -> (Vec<String>, Vec<(String, String)>) {
-        let mut args: Vec<String> = vec![];
-        let mut env: Vec<(String, String)> = vec![];
+    fn launch(&self, dir: &std::path::Path) -> (Vec<std::ffi::OsString>, Vec<(String, std::ffi::OsString)>) {
+        let mut args: Vec<std::ffi::OsString> = vec![];
+        let mut env: Vec<(String, std::ffi::OsString)> = vec![];
         match self.listen_form {
             0 => {
                 for a in &self.addrs {
                     args.push("--listen".into());
-                    args.push(a.clone());
+                    args.push(a.clone().into());
                 }
             }
             1 => {
                 args.push("--listen".into());
-                args.push(self.addrs.join(","));
+                args.push(self.addrs.join(",").into());
             }
-            _ => env.push(("LISTEN".into(), self.addrs.join(","))),
+            _ => env.push(("LISTEN".into(), self.addrs.join(",").into())),
         }
         if self.data_by_env {
-            env.push(("DATA_DIR".into(), dir.to_string_lossy().to_string()));
+            env.push(("DATA_DIR".into(), dir.as_os_str().to_os_string()));
         } else {
             args.push("--data-dir".into());
-            args.push(dir.to_string_lossy().to_string());
+            args.push(dir.as_os_str().to_os_string());
         }
         if !self.allow.is_empty() {
             let ids: Vec<String> = self.allow.iter().map(|u| u.to_string()).collect();
@@ -71,30 +71,30 @@ impl Cfg {
                 0 => {
                     for i in &ids {
                         args.push("--allow-client-id".into());
-                        args.push(i.clone());
+                        args.push(i.clone().into());
                     }
                 }
                 1 => {
                     args.push("--allow-client-id".into());
-                    args.push(ids.join(","));
+                    args.push(ids.join(",").into());
                 }
-                _ => env.push(("CLIENT_ID".into(), ids.join(","))),
+                _ => env.push(("CLIENT_ID".into(), ids.join(",").into())),
             }
         }
         if let Some(v) = self.versions {
             if self.versions_by_env {
-                env.push(("SNAPSHOT_VERSIONS".into(), v.to_string()));
+                env.push(("SNAPSHOT_VERSIONS".into(), v.to_string().into()));
             } else {
                 args.push("--snapshot-versions".into());
-                args.push(v.to_string());
+                args.push(v.to_string().into());
             }
         }
         if let Some(d) = self.days {
             if self.days_by_env {
-                env.push(("SNAPSHOT_DAYS".into(), d.to_string()));
+                env.push(("SNAPSHOT_DAYS".into(), d.to_string().into()));
             } else {
                 args.push("--snapshot-days".into());
-                args.push(d.to_string());
+                args.push(d.to_string().into());
             }
         }
         (args, env)
@@ -164,14 +164,22 @@ fn fail(msg: String, cfg: &Cfg, case: usize) -> Found {
 /// One configuration end to end; returns a violation message if any.
 fn run_cfg(cfg: &Cfg, bin: &std::path::Path, rng: &mut Rng, cov: &mut Cov) -> Result<Option<String>, String> {
     let dir = ScratchDir::new("c17");
-    let data = dir.path().join(&cfg.dir_name);
+    // a name that is not valid UTF-8 (a Latin-1 file name on disk): legal on this platform
+    let dir_os: std::ffi::OsString = match cfg.dir_name.strip_prefix("<latin-1>") {
+        Some(rest) => {
+            use std::os::unix::ffi::OsStringExt;
+            std::ffi::OsString::from_vec(rest.chars().map(|ch| if (ch as u32) < 256 { ch as u32 as u8 } else { b'?' }).collect())
+        }
+        None => cfg.dir_name.clone().into(),
+    };
+    let data = dir.path().join(&dir_os);
     let (args, env) = cfg.launch(&data);
     let eff = cfg.effective();
     // ---- a configured address that cannot be bound: the server must not come up half-configured
     if let Some(oi) = cfg.occupied {
         let a = cfg.addrs[oi].replace("localhost", "127.0.0.1");
         let Ok(_holder) = std::net::TcpListener::bind(&a) else { return Err("cannot occupy the address".into()) };
-        let mut proc = match Proc::start(bin, &args, &env, &[], Duration::from_secs(20)) {
+        let mut proc = match Proc::start_os(bin, &args, &env, &[], Duration::from_secs(20)) {
             Ok(p) => p,
             Err(_) => {
                 cov.hit("unbindable-address:refused-to-start".into());
@@ -195,14 +203,14 @@ fn run_cfg(cfg: &Cfg, bin: &std::path::Path, rng: &mut Rng, cov: &mut Cov) -> Re
         cov.hit("unbindable-address:not-serving".into());
         return Ok(None);
     }
-    let mut proc = match Proc::start(bin, &args, &env, &[], Duration::from_secs(20)) {
+    let mut proc = match Proc::start_os(bin, &args, &env, &[], Duration::from_secs(20)) {
         Ok(p) => p,
         Err(e) => {
             if cfg.dir_name != "data" {
                 // does the same configuration start with a plain directory name?
                 let plain = dir.path().join("data");
                 let (a2, e2) = cfg.launch(&plain);
-                if let Ok(mut p2) = Proc::start(bin, &a2, &e2, &cfg.addrs, Duration::from_secs(20)) {
+                if let Ok(mut p2) = Proc::start_os(bin, &a2, &e2, &cfg.addrs, Duration::from_secs(20)) {
                     p2.kill9();
                     return Ok(Some(format!("the server does not start with the data directory {:?} ({e}) although it starts with the same configuration and a directory called \"data\" next to it", data.display().to_string())));
                 }
@@ -310,7 +318,7 @@ fn run_cfg(cfg: &Cfg, bin: &std::path::Path, rng: &mut Rng, cov: &mut Cov) -> Re
         return Ok(Some(format!("no database file under the configured data directory {}", data.display())));
     }
     // ... and nowhere else: the configured directory is the only entry next to it
-    let siblings: Vec<String> = std::fs::read_dir(dir.path()).map(|r| r.filter_map(|e| e.ok()).map(|e| e.file_name().to_string_lossy().to_string()).filter(|n| *n != cfg.dir_name.split('/').next().unwrap_or("")).collect()).unwrap_or_default();
+    let siblings: Vec<String> = std::fs::read_dir(dir.path()).map(|r| r.filter_map(|e| e.ok()).map(|e| e.file_name().to_string_lossy().to_string()).filter(|n| *n != cfg.dir_name.split('/').next().unwrap_or("") && *n != dir_os.to_string_lossy()).collect()).unwrap_or_default();
     if !siblings.is_empty() {
         return Ok(Some(format!("the server was given the data directory {:?} but also created {siblings:?} next to it", data.display().to_string())));
     }
@@ -347,7 +355,7 @@ fn run_cfg(cfg: &Cfg, bin: &std::path::Path, rng: &mut Rng, cov: &mut Cov) -> Re
     cfg2.listen_form = (cfg.listen_form + 1) % 3;
     cfg2.data_by_env = !cfg.data_by_env;
     let (args, env) = cfg2.launch(&data);
-    let mut proc = Proc::start(bin, &args, &env, &cfg.addrs, Duration::from_secs(20)).map_err(|e| format!("restart: {e}"))?;
+    let mut proc = Proc::start_os(bin, &args, &env, &cfg.addrs, Duration::from_secs(20)).map_err(|e| format!("restart: {e}"))?;
     cov.hit("kill9-restart".into());
     for (i, r) in reads.iter().enumerate() {
         let (after, _) = call(&pick_addr(rng), client, r);
@@ -379,7 +387,7 @@ fn run_cfg(cfg: &Cfg, bin: &std::path::Path, rng: &mut Rng, cov: &mut Cov) -> Re
             t.commit().map_err(|e| format!("{e:#}"))?;
         }
         let (args, env) = cfg.launch(&data);
-        let mut proc = Proc::start(bin, &args, &env, &cfg.addrs, Duration::from_secs(20)).map_err(|e| format!("restart: {e}"))?;
+        let mut proc = Proc::start_os(bin, &args, &env, &cfg.addrs, Duration::from_secs(20)).map_err(|e| format!("restart: {e}"))?;
         let (r, raw) = call(&pick_addr(rng), client, &Req::AddVersion { parent, data: b"after-aging".to_vec() });
         proc.kill9();
         match r {
